@@ -6,10 +6,11 @@ Import ListNotations.
 Open Scope Z_scope.
 
 (* `fanc W s j`: some chain of job dependencies k -> ... -> j where k is in state ERROR and no job
-   strictly between k and j had already succeeded in an earlier run (marker).  Such a job is never
-   launched; if it had not itself succeeded earlier, it ends ERROR with failure_status DEPENDENCY *)
+   strictly between k and j was decided by an earlier run (success marker, or a process of an earlier
+   scheduler still running at submission).  Such a job is never launched; if it was not itself decided
+   by an earlier run, it ends ERROR with failure_status DEPENDENCY *)
 Theorem C07_failed_ancestor_not_launched : forall W s j r, wf W = true -> reachable W s ->
-  fanc W s j -> j_marker (spec W j) = false ->
+  fanc W s j -> j_marker (spec W j) = false -> adopted W j = None ->
   launches (jobs s j) = 0%nat /\
   (pc (jobs s j) = PReturned r -> r = ERROR /\ fdep (jobs s j) = true).
 Proof. exact failed_ancestor_not_launched. Qed.
@@ -21,10 +22,11 @@ Theorem C07_returned_error_is_failed_ancestor : forall W s j k, wf W = true -> r
 Proof. exact returned_error_fanc. Qed.
 Print Assumptions C07_returned_error_is_failed_ancestor.
 
-(* a job all of whose job dependencies succeeded ends according to its own exit code *)
+(* a job all of whose job dependencies succeeded (none of them being a job whose process was left
+   running by an earlier scheduler) ends according to its own exit code *)
 Theorem C07_independent_unaffected : forall W s j r, wf W = true -> reachable W s ->
-  pc (jobs s j) = PReturned r -> j_marker (spec W j) = false ->
-  (forall k, In (DJob k) (deps W j) -> st (jobs s k) = DONE) ->
+  pc (jobs s j) = PReturned r -> j_marker (spec W j) = false -> adopted W j = None ->
+  (forall k, In (DJob k) (deps W j) -> st (jobs s k) = DONE /\ adopted W k = None) ->
   launches (jobs s j) = 1%nat /\ r = code_state (j_code (spec W j)).
 Proof. exact independent_unaffected. Qed.
 Print Assumptions C07_independent_unaffected.
